@@ -369,3 +369,9 @@ Proof. vm_compute. reflexivity. Qed.
 
 Example ex_op_wf : Forall (op_wf ex_V) [LExtend (ItProxySame [PInt 3]); LAppend (PInt (-4))].
 Proof. repeat constructor. Qed.
+
+Example ex_init : p_init ex_V false [PNone; PInt 3] = Ok [PInt 0; PInt 3].
+Proof. reflexivity. Qed.
+
+Example ex_typed : proxy_step ex_V 1 [PInt 0] (LNew (ItIter [PNone; PInt 3])) = ([PInt 0], Ok (PList 1 [PInt 0; PInt 3])).
+Proof. vm_compute. reflexivity. Qed.
